@@ -77,6 +77,7 @@ func (*c14Prop) Plans(tier string) []Plan {
 			{Name: "plain", Workers: 16, Runs: 4000, MaxTime: 30e9},
 			{Name: "race", Race: true, Workers: 16, Runs: 2500, MaxTime: 35e9},
 			{Name: "race-cold", Race: true, Workers: 16, Runs: 1, MaxTime: 30e9, Cold: true},
+			{Name: "deep", Variant: 1, Workers: 8, Runs: 8, MaxTime: 25e9},
 		}
 	}
 	return []Plan{
@@ -84,6 +85,8 @@ func (*c14Prop) Plans(tier string) []Plan {
 		{Name: "race", Race: true, Workers: 16, Runs: 4000000, MaxTime: 600e9},
 		{Name: "race-cold", Race: true, Workers: 128, Runs: 1, MaxTime: 60e9, Cold: true},
 		{Name: "plain-cold", Workers: 128, Runs: 1, MaxTime: 60e9, Cold: true},
+		{Name: "deep", Variant: 1, Workers: 16, Runs: 100000, MaxTime: 300e9},
+		{Name: "deep-race", Variant: 1, Race: true, Workers: 16, Runs: 100000, MaxTime: 300e9},
 	}
 }
 
@@ -110,7 +113,58 @@ func genGraphSpec(r *Rand) GraphSpec {
 	return s
 }
 
+// genDeep: 3-6 tasks recurse several hundred levels deep into ONE shared left-recursive
+// graph at the same time (resource limits, depth counters and the like are
+// size-dependent: a knob never large enough for the rare path to run is a blind spot).
+func genDeep(r *Rand) *c14Case {
+	c := &c14Case{MapSeed: r.U64(), MapIdentity: true}
+	nt := r.Range(3, 6)
+	kind := []string{"pb", "pb", "pb", "pair", "pair", "arith"}[r.Intn(6)]
+	c.Graphs = []GraphSpec{{Kind: kind, Churn: r.Intn(3)}}
+	for i := 0; i < nt; i++ {
+		t := c14Task{Graph: 0, Eval: r.Bool()}
+		switch kind {
+		case "pb":
+			t.Input = "a" + strings.Repeat("b", r.Range(180, 420))
+		case "pair":
+			n := r.Range(180, 400)
+			var sb strings.Builder
+			for j := 0; j < n; j++ {
+				sb.WriteByte("ab"[j%2])
+			}
+			t.Input = sb.String()
+		default:
+			k := r.Range(20, 90)
+			t.Input = strings.Repeat("(", k) + fmt.Sprint(r.Intn(10)) + strings.Repeat(")", k)
+			t.Eval = true
+		}
+		if r.Chance(1, 6) {
+			t.Input = mutate(r, t.Input, "abx()1")
+		}
+		c.Tasks = append(c.Tasks, t)
+	}
+	c.Sched = genSched(r, nt, 2000000)
+	switch c.Sched.Policy {
+	case sim.PolRandom: // a switch at every yield would make the schedule too long to record
+		c.Sched.Policy = sim.PolSticky
+		c.Sched.Args[0] = 256
+	case sim.PolSticky:
+		c.Sched.Args[0] = int64([]int{64, 512, 4096}[r.Intn(3)])
+	case sim.PolRR:
+		c.Sched.Args[0] = int64([]int{100, 1000, 20000}[r.Intn(3)])
+	}
+	c.Sched.StepCap = 400000000
+	if r.Chance(1, 3) {
+		c.Sched.AbortTask = int64(r.Range(1, nt))
+		c.Sched.AbortAt = int64(r.Range(1, 400))
+	}
+	return c
+}
+
 func (*c14Prop) Gen(r *Rand, pl *Plan) Case {
+	if pl.Variant == 1 {
+		return genDeep(r)
+	}
 	c := &c14Case{MapSeed: r.U64(), MapIdentity: r.Chance(1, 8)}
 	ng := r.Range(1, 2)
 	for i := 0; i < ng; i++ {
